@@ -71,6 +71,7 @@ func main() {
 		trace      = flag.Bool("trace", false, "trace executed SSA instructions")
 		extraInit  = flag.String("init", "", "comma separated extra packages whose init may run")
 		concLimit  = flag.Int("conc-limit", 0, "explore only the K smallest feasible values of each symbolic size/offset (0 = all)")
+		loopCut    = flag.String("loop-cut", "", "Func=N: prune paths that visit a block of a function whose name contains Func more than N times in one activation")
 		list       = flag.Bool("list", false, "list harness entry functions (H_*) and exit")
 	)
 	flag.Parse()
@@ -213,6 +214,12 @@ func main() {
 			initSkipped:        map[string]int{},
 			srcCache:           map[string][]string{},
 			srcRoot:            *dir,
+		}
+		if *loopCut != "" {
+			if k := strings.LastIndex(*loopCut, "="); k > 0 {
+				i.loopCutFn = (*loopCut)[:k]
+				fmt.Sscanf((*loopCut)[k+1:], "%d", &i.loopCutN)
+			}
 		}
 		i.initAllowed = func(path string) bool {
 			if v, ok := allowed[path]; ok {
